@@ -111,6 +111,27 @@ def find_order(rows, n, g):
     return None
 
 
+def light_codeword(Gm, n, k, d, budget=300000):
+    """message of a codeword of weight exactly d: combinations of few rows of G and of a systematic form of G"""
+    G = np.array([[(g >> p) & 1 for p in range(n)] for g in Gm], dtype=np.uint8)
+    R, T, piv = feccat.rref(G)
+    for rows, msgs in ((Gm, [1 << i for i in range(k)]), (feccat.masks(R), feccat.masks(T))):
+        cnt = 0
+        for w in range(1, k + 1):
+            for comb in itertools.combinations(range(k), w):
+                cw = 0; msg = 0
+                for i in comb:
+                    cw ^= rows[i]; msg ^= msgs[i]
+                if weight(cw) == d:
+                    return msg
+                cnt += 1
+                if cnt > budget:
+                    break
+            if cnt > budget:
+                break
+    return None
+
+
 def info_cert(d):
     """information set (pivot columns of G), inverse of G restricted to it, even-weight flag, enumeration size"""
     from math import comb
@@ -136,10 +157,11 @@ def data(ctx=None):
         Gm = feccat.masks(G)
         advN, advK, advD = advertised(c)
         exact = c.family in EXACT_FAMILIES or (c.family in ("cyclic", "cyclic_std") and k <= 12)
-        decided = k <= KDEC
         true_d, wmsg = codewords_min(Gm, k, 16)
         if true_d is None:
             true_d = dual_min_distance(G, H)
+        if wmsg is None and true_d is not None:
+            wmsg = light_codeword(Gm, n, k, true_d)
         wit = 0
         known_bad = False
         if advD and true_d is not None and true_d < advD:
@@ -161,7 +183,11 @@ def data(ctx=None):
             m = re.search(r"\((\d+),(\d+)\)", c.params["name"])
             nameN, nameK = int(m.group(1)), int(m.group(2))
         perfect = (c.family == "hamming" and not c.params["extended"]) or (c.family == "golay" and not c.params["extended"]) or (c.family == "cyclic_std" and c.params["name"] in ("Hamming(7,4)", "Golay(23,12)"))
-        _DATA[name] = dict(c=c, n=n, k=k, r=H.shape[0], G=Gm, HT=feccat.masks(H.T) if H.shape[1] == n else [0] * n, advN=advN, advK=advK, advD=advD,
+        # lower bound: full enumeration (2^k words) or information-set certificate, whichever is cheaper for the kernel
+        pre = dict(n=n, k=k, G=Gm, advD=advD)
+        ic = info_cert(pre) if advD and not known_bad else None
+        decided = k <= KDEC and not (ic and ic["leaves"] * (advD + 2) < (2 ** k) * 4)
+        _DATA[name] = dict(c=c, info=ic, n=n, k=k, r=H.shape[0], G=Gm, HT=feccat.masks(H.T) if H.shape[1] == n else [0] * n, advN=advN, advK=advK, advD=advD,
                            exact=exact, wit=wit, decided=decided, cyclic=cyc, gpoly=gpoly, rot=rot, rev=rev, perfect=perfect, knownBad=known_bad,
                            nameN=nameN, nameK=nameK, true_d=true_d)
     return _DATA
@@ -196,7 +222,7 @@ def extract(ctx):
     cand = []
     for name, d in data(ctx).items():
         if d["advD"] and not d["decided"] and not d["knownBad"]:
-            ic = info_cert(d)
+            ic = d["info"]
             if ic and ic["leaves"] <= INFO_LEAVES:
                 cand.append((name, d, ic))
             else:
